@@ -264,11 +264,13 @@ impl ConnectionManager {
                 }),
             );
         }
-        // At this point we shouldn't have any active peers
-        assert!(
-            self.active_peers.inner().connections.is_empty(),
-            "ActivePeers should be empty after all connection handlers have terminated"
-        );
+        // Every handler deregisters its peer when it ends. A handler that was cancelled instead of
+        // running to its end (the runtime is being torn down underneath us) could not: deregister
+        // what it left behind rather than panicking in the middle of a teardown.
+        for peer_id in self.active_peers.peers() {
+            self.active_peers
+                .remove(&peer_id, DisconnectReason::LocallyClosed);
+        }
 
         // wait for the endpoint to be idle
         self.endpoint
